@@ -1173,6 +1173,7 @@ func checkFeePlumbing(c *Ctx) {
 	want := map[string]string{"PubKeyHash": "P2PKHPkScriptSize", "NestedWitnessPubKey": "NestedP2WPKHPkScriptSize", "WitnessPubKey": "P2WPKHPkScriptSize", "TaprootPubKey": "P2TRPkScriptSize"}
 	// find the phi feeding ChangeSource.ScriptSize
 	n := 0
+	sizeHelpers := map[*ssa.Function]*ssa.Call{}
 	for _, st := range storesToField(cs, "ScriptSize") {
 		// the selection spelled as a literal table keyed by the address type
 		if lk := lookupOf(st.Val); lk != nil {
@@ -1192,6 +1193,31 @@ func checkFeePlumbing(c *Ctx) {
 				}
 				continue
 			}
+		}
+		// the selection in a private part `size(addrType) (int, error)`: one constant per arm, returned
+		if call := sizeHelperCall(st.Val, cs); call != nil {
+			h := call.Call.StaticCallee()
+			sizeHelpers[h] = call
+			for _, b := range h.Blocks {
+				r, isRet := b.Instrs[len(b.Instrs)-1].(*ssa.Return)
+				if !isRet || len(r.Results) == 0 {
+					continue
+				}
+				k, isK := constInt(effectiveResult(r, 0))
+				atName := ""
+				for _, f := range p.guardFormsEq(b) {
+					atName = f
+				}
+				if !isK || atName == "" {
+					continue
+				}
+				n++
+				wname := want[atName]
+				wv, okc := constInPkg(p, "wallet/txsizes", wname)
+				c.Check("C07-R4", "change-script-size:"+atName, st.Pos(), okc && wv == k,
+					fmt.Sprintf("change script size for address type %s is %d, expected %s=%d (fee estimate would use the wrong change output size)", atName, k, wname, wv))
+			}
+			continue
 		}
 		ph, ok := st.Val.(*ssa.Phi)
 		if !ok {
@@ -1235,7 +1261,11 @@ func checkFeePlumbing(c *Ctx) {
 	}
 	if readsOverride {
 		nCmp, okAll := 0, true
-		for _, b := range cs.Blocks {
+		blocks := append([]*ssa.BasicBlock{}, cs.Blocks...)
+		for h := range sizeHelpers {
+			blocks = append(blocks, h.Blocks...)
+		}
+		for _, b := range blocks {
 			for _, ins := range b.Instrs {
 				var selector ssa.Value
 				switch x := ins.(type) {
@@ -1262,6 +1292,14 @@ func checkFeePlumbing(c *Ctx) {
 				}
 				nCmp++
 				has := false
+				// in the size helper the selector is its parameter: what the caller hands over
+				if prm, isPrm := stripConv(selector).(*ssa.Parameter); isPrm {
+					if call := sizeHelpers[prm.Parent()]; call != nil {
+						if i := paramIndex(prm.Parent(), prm); i >= 0 && i < len(call.Call.Args) {
+							selector = call.Call.Args[i]
+						}
+					}
+				}
 				for _, o := range (&Slicer{P: p}).Origins(selector) {
 					if _, f, base, okf := fieldOf(o); okf && f == "InternalAddrType" {
 						for _, o2 := range (&Slicer{P: p, ThroughDeref: true}).Origins(base) {
@@ -1284,6 +1322,23 @@ func checkFeePlumbing(c *Ctx) {
 		c.Check("C07-R4", "change-script-size-honours-schema-override", cs.Pos(), nCmp > 0 && okAll,
 			"the change script size is selected from an address type that does not incorporate the account's AddrSchema override (the override is read, but only applied elsewhere): for accounts whose change address type differs from the scope default the fee is computed for the wrong change output size")
 	}
+}
+
+// sizeHelperCall: v is (the first result of) a call from fn's package to a declared function of the same package.
+func sizeHelperCall(v ssa.Value, fn *ssa.Function) *ssa.Call {
+	v = stripConv(v)
+	if ex, ok := v.(*ssa.Extract); ok && ex.Index == 0 {
+		v = ex.Tuple
+	}
+	call, ok := v.(*ssa.Call)
+	if !ok {
+		return nil
+	}
+	h := call.Call.StaticCallee()
+	if h == nil || h.Pkg == nil || h.Pkg != fn.Pkg || len(h.Blocks) == 0 || h.Parent() != nil {
+		return nil
+	}
+	return call
 }
 
 // guardFormsEq: names of AddressType constants X such that block b is reached only when addrType == X (switch arm).
